@@ -360,7 +360,7 @@ func genC13w(g *Gen) {
 	}
 
 	// (W1) large sparse bitmaps: gaps of 100..5000 all-zero words between the groups of 1-bits
-	nb := g.N(14, 120)
+	nb := g.N(14, 80)
 	for k := 0; k < nb; k++ {
 		groups := g.R.Range(1, 4)
 		big := g.R.Intn(groups) // one gap of this bitmap is drawn from the large class
@@ -463,7 +463,7 @@ func genC13w(g *Gen) {
 
 	// (W3) held bitmaps: 6..20 queries of both kinds on ONE slice, run twice; query lists follow the
 	// patterns of the laws (same range both ways, nested ranges, a range and its two halves)
-	nh := g.N(150, 3000)
+	nh := g.N(150, 2000)
 	for k := 0; k < nh; k++ {
 		var bm []uint64
 		var marks []int
@@ -531,7 +531,7 @@ func genC13w(g *Gen) {
 
 	// (W3b) siblings: the same query on a bitmap and, next, on the bitmap with the answering 1-bit
 	// cleared - same length, same (i, end), mostly the same words, a different answer
-	for k, ns := 0, g.N(200, 4000); k < ns; k++ {
+	for k, ns := 0, g.N(200, 3000); k < ns; k++ {
 		bm, marks := c13wBitmap(g, g.R.Range(1, 4), func(int) int { return g.R.Intn(5) }, g.R.Intn(3))
 		i, e := c13wRange(g, bm, marks, nil)
 		first, last := -1, -1
@@ -610,7 +610,7 @@ func genC13w(g *Gen) {
 		}
 	}
 	g.Exhaust = append(g.Exhaust, "walk/dual: 7 one-word bitmaps x all (i,end) over {0,1,2,3,8,9,31,32,33,62,63,64}")
-	ni := g.N(250, 5000)
+	ni := g.N(250, 3000)
 	for k := 0; k < ni; k++ {
 		bm, marks := c13wBitmap(g, g.R.Range(1, 4), func(int) int { return g.R.Intn(5) }, g.R.Intn(3))
 		n := 64 * len(bm)
@@ -649,7 +649,7 @@ func genC13w(g *Gen) {
 
 	// (W6) build with Of, walk with NextOne / PrevOne: dense and sparse ascending position lists,
 	// with and without the size argument (smaller / larger than last+1, negative)
-	for k, no := 0, g.N(200, 4000); k < no; k++ {
+	for k, no := 0, g.N(200, 2500); k < no; k++ {
 		var ps []int
 		p := g.R.Pick(0, 0, 1, 63, 64, 65, 5000)
 		for c := g.R.Intn(12); c > 0; c-- {
